@@ -44,7 +44,7 @@ def gen_cases(ctx):
         if ctx.quick:
             d2 = rng.sample(d2, 1500)
         lines += d2
-    n = 2500 if ctx.quick else 40000
+    n = 2500 if ctx.quick else 160000
     for _ in range(n):
         b = rng.choice(B)
         g = gen_sql.Gen(rng, b, max_depth=rng.choice([2, 3, 4, 5]), parseable=True, no_marks=True,
@@ -106,7 +106,7 @@ def batch_oracle(ctx, lines, impl):
 def extra(ctx, failures):
     """the same with feature option-more-parentheses (harness fc, model --more-parens)"""
     exe = vlib.harness_build("fc")
-    lines = [l for l in gen_cases(ctx)][: (1500 if ctx.quick else 20000)]
+    lines = [l for l in gen_cases(ctx)][: (1500 if ctx.quick else 60000)]
     impl = vlib.run_exe(exe, lines, ctx.work, "fc.impl")
     mod = vlib.run_exe(ctx.model, lines, ctx.work, "fc.model", extra_args=["--more-parens"])
     dis = [(c, i, m) for c, i, m in zip(lines, impl, mod) if i != m]
